@@ -731,7 +731,12 @@ class FormulaMaterializer(metaclass=FormulaMaterializerMeta):
                             encoded = {}
                             for k, v in values.items():
                                 if isinstance(k, str) and k.startswith("__"):
-                                    encoded[k] = v
+                                    # Reserved (metadata) keys of dict-valued
+                                    # factors generate no columns. They are
+                                    # dropped here, where they can be told
+                                    # apart from encoded column names (such as
+                                    # category levels) that start with "__".
+                                    continue
                                 else:
                                     nested_state = state.get(k, {})
                                     encoded[k] = wrapped(
@@ -861,8 +866,6 @@ class FormulaMaterializer(metaclass=FormulaMaterializerMeta):
 
         flattened = {}
         for subfield, value in values.items():
-            if isinstance(subfield, str) and subfield.startswith("__"):
-                continue
             subname = name_format.format(name=name, field=subfield)
             if isinstance(value, dict):
                 flattened.update(self._flatten_encoded_evaled_factor(subname, value))  # type: ignore
